@@ -608,6 +608,9 @@ impl Check for C16 {
         }
         out.into_iter().map(|s| serde_json::to_value(s).unwrap()).collect()
     }
+    fn attempts(&self) -> u32 {
+        3
+    }
     fn rule(&self) -> String {
         "one run = one seeded scenario: configuration (tool_choice auto/none/required/function:<name>/JSON named function/allowed_tools lists incl. hosted-only and mode none; stateful or stateless history; optional follow-up user message; parallel_tool_calls), a provider script of 2-6 responses each emitting 0-4 function calls over 8 tool names (an unknown one included) with valid, invalid or non-JSON arguments delivered inline / as 1-4 deltas / by an arguments.done event, missing item ids, missing call ids, call id given only on the added event, duplicate call ids, items never finished, shuffled output_index, interleaved items, invalid-JSON events between them, missing response id, 4 chunkings, CRLF, missing [DONE], connection drop at a seeded byte, HTTP 500 / empty body / close; in 1 of 4 scenarios the last response (served to every later request) keeps asking for 1-5 tools so that only the engine's bound can end the run; 1-2 sequential runs started through POST /threads/{id}/messages or POST /sessions + input. Checked per run against a from-scratch model of the calls each served response emits: every request the stub received passes the OpenResponses create-response schema and request_started frames = requests received; tool frames after response i are calls of response i, each at most once; a name excluded by the tool choice (model written from the parameter's meaning) has no tool_ended/stdout/stderr frames, leaves no file behind and is not answered ok=true; the next request answers exactly the complete calls, by call id, in output_index order, one answer per execution, each with the output of the tool that was called; a follow-up exists whenever complete calls were emitted, the bound is not reached and a response id is known (or history is stateless); tool calls per run <= max_tool_calls announced in the request, and a run that handles more than 80 calls is reported at once; in stateless mode each input (minus the trailing compatibility message) extends the previous one. distinct = hash of the scenario; non-trivial = at least one tool call handled".into()
     }
